@@ -22,6 +22,7 @@ class json:  # json with a fallback for generator objects kept in Case.info
     def dump(o, f, **kw): kw.setdefault("default", repr); return _json.dump(o, f, **kw)
 
 VERIF = os.path.dirname(os.path.dirname(os.path.abspath(__file__)))
+REPLAYS = os.environ.get('VERIF_REPLAY_DIR') or os.path.join(VERIF, 'replays')
 REPO = os.environ.get('VERIF_REPO', '/repo')
 COQ = os.environ.get('VERIF_COQ_DIR', os.path.join(VERIF, 'coq'))       # scratch copies are used when a seeded change is tried
 OCAML = os.environ.get('VERIF_OCAML_DIR', os.path.join(VERIF, 'ocaml'))
@@ -200,7 +201,7 @@ def main():
     evdir = os.environ.get('VERIF_EVIDENCE_DIR', os.path.join(VERIF, 'evidence'))
     evid_path = os.path.join(evdir, pid + '.json')
     os.makedirs(evdir, exist_ok=True)
-    os.makedirs(os.path.join(VERIF, 'replays'), exist_ok=True)
+    os.makedirs(REPLAYS, exist_ok=True)
     violations = []; known_hits = []; exit_code = 0
     try:
         # 1. proofs
@@ -276,14 +277,14 @@ def main():
             if hasattr(mod, 'shrink'):
                 try: c, why = mod.shrink(c, why, ctx)
                 except Exception as e: log.append('shrink failed: %r' % (e,))
-            path = os.path.join(VERIF, 'replays', rep_id + '.json')
+            path = os.path.join(REPLAYS, rep_id + '.json')
             json.dump({'property': pid, 'kind': 'failing-input', 'why': why, 'cases': [{'line': c.line, 'info': c.info}],
                        'impl': impl_out[i], 'model': model_out[i], 'others': len(unknown_fail) - 1,
                        'sanitizer': sanitizer_logs(tmp)[:4000],
                        'replay_cmd': 'python3 tools/check.py %s --replay %s' % (pid, path)}, open(path, 'w'), indent=1)
             violations.append((path, ''))
         for k_ev, ev in enumerate(extra.get('violations', [])):
-            path = os.path.join(VERIF, 'replays', rep_id + '_extra%d.json' % k_ev)
+            path = os.path.join(REPLAYS, rep_id + '_extra%d.json' % k_ev)
             json.dump({'property': pid, 'kind': ev.get('kind', 'extra'), 'why': ev['why'], 'detail': ev.get('detail'),
                        'replay_cmd': 'python3 tools/check.py %s --replay %s' % (pid, path)}, open(path, 'w'), indent=1)
             violations.append((path, '' if ev.get('has_input') else ' no-failing-input-found'))
@@ -293,7 +294,7 @@ def main():
             if hasattr(mod, 'search'):
                 try: found = mod.search([cases[i] for i in mism[:20]], ctx)
                 except Exception as e: log.append('search failed: %r' % (e,))
-            path = os.path.join(VERIF, 'replays', rep_id + '.json')
+            path = os.path.join(REPLAYS, rep_id + '.json')
             if found:
                 c, why, io, mo = found
                 json.dump({'property': pid, 'kind': 'failing-input', 'why': why, 'cases': [{'line': c.line, 'info': c.info}], 'impl': io, 'model': mo}, open(path, 'w'), indent=1)
@@ -310,7 +311,7 @@ def main():
                 violations.append((path, ' no-failing-input-found'))
         # c) a proof obligation no longer checks and nothing failed
         if not pr['ok'] and not violations:
-            path = os.path.join(VERIF, 'replays', rep_id + '_proof.json')
+            path = os.path.join(REPLAYS, rep_id + '_proof.json')
             json.dump({'property': pid, 'kind': 'proof-obligation-broken', 'theorems': pr['theorems'], 'errors': pr['errors'],
                        'what': 'a theorem of coq/Properties_%s.v (or a generated source fact it depends on) no longer checks' % pid},
                       open(path, 'w'), indent=1)
@@ -346,7 +347,7 @@ def main():
         ev = {'property_id': pid, 'tier': tier if tier in ('quick', 'thorough') else 'quick', 'seed': seed, 'level': 'proof', 'coverage': cov,
               'assumptions': mod.ASSUMPTIONS, 'wall_s': round(time.time() - t_start, 2), 'violations': len(violations)}
         # a replay re-runs recorded cases only: it must not replace the evidence of the property's check
-        json.dump(ev, open(evid_path if not replay else os.path.join(VERIF, 'replays', 'replay_evidence_%s.json' % pid), 'w'), indent=1)
+        json.dump(ev, open(evid_path if not replay else os.path.join(REPLAYS, 'replay_evidence_%s.json' % pid), 'w'), indent=1)
     finally:
         shutil.rmtree(tmp, ignore_errors=True)
     sys.exit(exit_code)
